@@ -110,7 +110,9 @@ def merge_desc_nulls_last(
         else:
             merged.append(ord)
 
-    return merged
+    # Several keys may be computed from the same column. Polars names an expression
+    # after its root column and rejects duplicate names in `over` and `struct`.
+    return [ord.alias(f"__order_by_{i}__") for i, ord in enumerate(merged)]
 
 
 def compile_order(order: Order, name_in_df: dict[UUID, str]) -> tuple[pl.Expr, bool, bool | None]:
